@@ -563,7 +563,14 @@ func (p *Path) eval(fr *Frame, instr ssa.Value) Value {
 		return &MapV{M: &MapObj{ID: p.objN, Typ: in.Type().Underlying().(*types.Map)}}
 	case *ssa.MakeChan:
 		p.objN++
-		return &ChanV{ID: p.objN}
+		sz := p.get(fr, in.Size).(*Term)
+		c := 0
+		if sz.IsConst() {
+			c = int(sz.Val)
+		} else {
+			c = 1 << 20
+		}
+		return &ChanV{ID: p.objN, Cap: c}
 	case *ssa.MakeSlice:
 		return p.makeSlice(fr, in)
 	case *ssa.Slice:
